@@ -200,8 +200,10 @@ class Ctx:
                 cov[k] = v
         ev = {"property_id": self.pid, "tier": self.tier, "seed": vlib.SEED, "level": level, "coverage": cov,
               "assumptions": self.assumptions, "wall_s": round(time.time() - self.t0, 1), "violations": len(self.violations)}
-        os.makedirs(os.path.join(vlib.VERIF, "evidence"), exist_ok=True)
-        with open(os.path.join(vlib.VERIF, "evidence", self.pid + ".json"), "w") as f:
+        # evidence is only ever written from runs against /repo itself; binding demonstrations on scratch copies go elsewhere
+        evdir = os.path.join(vlib.VERIF, "evidence" if os.path.realpath(vlib.REPO) == "/repo" else ".cache/evidence-scratch")
+        os.makedirs(evdir, exist_ok=True)
+        with open(os.path.join(evdir, self.pid + ".json"), "w") as f:
             json.dump(ev, f, indent=1, default=str)
         self.scratch.cleanup()
         return 1 if self.violations else 0
